@@ -85,9 +85,9 @@ class MCB:
 class H:
     """one real ECU + reference model"""
 
-    def __init__(self, cfg):
-        _c, eps = cfg
-        self.w = rt.World(eps_wake=eps)
+    def __init__(self, cfg, trace_factory=None):
+        _c, eps = cfg[0], cfg[1]
+        self.w = rt.World(eps_wake=eps, trace_factory=trace_factory)
         rt.activate(self.w)
         self.bus = Bus(self.w, base_lat=1e-4)
         self.st = Stack(self.bus, 'X')
